@@ -130,7 +130,35 @@ func buildSession(rng *Rng, nReq int) (stream []byte, wellFormed bool) {
 func runControl(env *Env, stream []byte, script []int, addr string) [][]byte {
 	w := env.Connect(addr)
 	w.Write(stream, script)
-	// wait for quiescence: replies are written by per-transaction goroutines
+	// wait for the replies the reference framing of the stream lets one expect (the login's, then one per complete
+	// keep-alive / user-list request) - a positive signal, not a quiet line: under load a reply can take longer than
+	// any quiet period - and then for quiescence, to catch anything beyond them
+	expect := 0
+	if len(stream) >= 12 {
+		bb := stream[12:]
+		for first := true; ; first = false {
+			f, n := refParse(bb)
+			if f == nil {
+				break
+			}
+			if first || f.Type == 500 || f.Type == 300 {
+				expect++
+			}
+			bb = bb[n:]
+		}
+	}
+	for dl := time.Now().Add(3 * time.Second); time.Now().Before(dl); time.Sleep(300 * time.Microsecond) {
+		fs, _ := w.Frames()
+		n := 0
+		for _, f := range fs {
+			if f.Reply == 1 {
+				n++
+			}
+		}
+		if n >= expect || w.ServerClosed() {
+			break
+		}
+	}
 	w.WaitQuiet(25*time.Millisecond, 3*time.Second)
 	rx := w.Rx()
 	if len(rx) < 8 {
